@@ -1,6 +1,7 @@
 import SJ.Properties.C18
 import SJ.Proofs.SourceLevelA
 import SJ.Proofs.SourceLevelF
+import SJ.Proofs.ShortestMinimal
 set_option linter.unusedVariables false
 /-
 C18 — source level. The theorems of Properties/C18.lean composed with the source ties of DESIGN §6.3: each statement
@@ -64,5 +65,90 @@ theorem C18_source_shortest (dst : Bytes) (bits : UInt64) (fuel : Nat) (tape : A
       SameDecimal (litValue l).2.1 (litValue l).2.2 (natOfDigits ds) (dp - ds.length) ∧
       F64.roundDecimal false (natOfDigits ds) (dp - ds.length) = some (bits &&& 0x7fffffffffffffff) :=
   SJ.SourceLevelF.C18_source_shortest dst bits fuel tape hf hfin h0
+
+open SJ.F64 SJ.Numeric SJ.FloatFmt SJ.FloatFmtProofs SJ.F64Round SJ.ShortestMinimal in
+/-- **At most 17 significant digits** (and at least one) for every finite non-zero float64. -/
+theorem C18_shortest_le_17 (abs : UInt64) (hfin : isFinite abs = true) (hlt : abs.toNat < 2 ^ 63) (h0 : abs ≠ 0) :
+    1 ≤ (shortest abs).digits.length ∧ (shortest abs).digits.length ≤ 17 :=
+  SJ.ShortestMinimal.shortest_le_17 abs hfin hlt h0
+
+open SJ.F64 SJ.Numeric SJ.FloatFmt SJ.FloatFmtProofs SJ.F64Round SJ.ShortestMinimal in
+/-- **"Shortest".** No decimal with fewer significant digits than `shortest abs` has is correctly rounded to `abs`:
+    whatever the mantissa `d < 10^m` (`m` less than the number of digits printed) and whatever the exponent `k`,
+    `d · 10^k` rounds to a different float64 (or to zero, or to infinity). -/
+theorem C18_shortest_minimal (abs : UInt64) (hfin : isFinite abs = true) (hlt : abs.toNat < 2 ^ 63) (h0 : abs ≠ 0)
+    (m d : Nat) (k : Int) (hm : m < (shortest abs).digits.length) (hd : d < 10 ^ m) (hd0 : d ≠ 0) :
+    roundDecimal false d k ≠ some abs :=
+  SJ.ShortestMinimal.shortest_minimal abs hfin hlt h0 m d k hm hd hd0
+
+open SJ.F64 SJ.Numeric SJ.FloatFmt SJ.FloatFmtProofs SJ.F64Round SJ.ShortestMinimal in
+/-- the same, read the other way: a decimal that rounds to `abs` has at least as many significant digits -/
+theorem C18_shortest_le_of_rounds (abs : UInt64) (hfin : isFinite abs = true) (hlt : abs.toNat < 2 ^ 63) (h0 : abs ≠ 0)
+    (m d : Nat) (k : Int) (hd : d < 10 ^ m) (h : roundDecimal false d k = some abs) :
+    (shortest abs).digits.length ≤ m :=
+  SJ.ShortestMinimal.shortest_le_of_rounds abs hfin hlt h0 m d k hd h
+
+open SJ.F64 SJ.Numeric SJ.FloatFmt SJ.FloatFmtProofs SJ.F64Round SJ.ShortestMinimal in
+/-- **Closest among the shortest, ties to even.** Let `D·10^K` be the decimal `shortest abs` denotes (`D` its digit
+    string read as a number, `L` digits) and `m·2^e` the exact value of `abs`. Every decimal `X·10^k` with at most `L`
+    significant digits that is correctly rounded to `abs` is at least as far from the exact value as `D·10^K`; and if a
+    different one is exactly as far, `D` is even — or `D = 1`, the carry case where the two candidates are `9` and `10`
+    (`10` being the even one at the scale of the search). -/
+theorem C18_closest_among_shortest (abs : UInt64) (hfin : isFinite abs = true) (hlt : abs.toNat < 2 ^ 63) (h0 : abs ≠ 0)
+    (m : Nat) (e : Int) (hdec : decode abs = .fin false m e) (X : Nat) (k : Int)
+    (hXL : X < 10 ^ (shortest abs).digits.length) (hr : roundDecimal false X k = some abs) :
+    (F64Round.decValue false (natOfDigits (shortest abs).digits) ((shortest abs).dp - (shortest abs).digits.length) -
+        value false m e).abs ≤ (F64Round.decValue false X k - value false m e).abs ∧
+    ((F64Round.decValue false X k - value false m e).abs =
+        (F64Round.decValue false (natOfDigits (shortest abs).digits) ((shortest abs).dp - (shortest abs).digits.length) -
+          value false m e).abs →
+      F64Round.decValue false X k ≠
+        F64Round.decValue false (natOfDigits (shortest abs).digits) ((shortest abs).dp - (shortest abs).digits.length) →
+      natOfDigits (shortest abs).digits % 2 = 0 ∨ natOfDigits (shortest abs).digits = 1) :=
+  SJ.ShortestMinimal.closest_among_shortest abs hfin hlt h0 m e hdec X k hXL hr
+
+open SJ.F64 SJ.Numeric SJ.FloatFmt SJ.FloatFmtProofs SJ.F64Round SJ.ShortestMinimal in
+/-- the digit string ends in a non-zero digit (the hypothesis `hlast` of `C18_fmtE_shape`) -/
+theorem C18_shortest_no_trailing_zero (abs : UInt64) (hfin : isFinite abs = true) (hlt : abs.toNat < 2 ^ 63)
+    (h0 : abs ≠ 0) : (shortest abs).digits.getLast? ≠ some 0 :=
+  SJ.ShortestMinimal.shortest_no_trailing_zero abs hfin hlt h0
+
+open SJ.F64 SJ.Numeric SJ.FloatFmt SJ.FloatFmtProofs SJ.F64Round SJ.Generated SJ.GoSem SJ.GoFloatFmt SJ.Spec SJ.ShortestMinimal in
+/-- **C18 at source level: shortest, at most 17 digits, closest.** Run `appendFloat(dst, f)` of `parsed_json.go` (with
+    `appendFloatF`, `fmtF`, as printed from /repo; Ryu / `strconv.AppendFloat(…,'e',-1,64)` by the shortest-digits contract)
+    on a finite non-zero float64 bit pattern; `abs` is the pattern without its sign bit. It returns `dst ++ txt` and `nil`
+    where `txt` is a number literal of the RFC grammar with the sign of the float whose decimal value is EXACTLY
+    `0.d₁…dₙ × 10^dp` (`SameDecimal`) for a digit string `ds = d₁…dₙ` such that
+    * `ds` is a string of decimal digits with neither a leading nor a trailing zero: `n` is the number of SIGNIFICANT digits of
+      the text, and `1 ≤ n ≤ 17`;
+    * correctly rounded, the decimal reads back to `abs`;
+    * **no decimal with fewer significant digits does**: for every `m < n`, mantissa `0 < d < 10^m` and exponent `k`,
+      `F64.roundDecimal false d k ≠ some abs`;
+    * **among the decimals with at most `n` significant digits that do, it is the closest to the exact value** `mₐ·2^eₐ` of
+      `abs`; in a tie, its digits read as a number are even (or `1`: the candidate `10` of the carry `9 → 10`).
+    The conclusion mentions no function of the hand model. Hypothesis kept from the tie: `fuelOK`, the interpreter's loop
+    budget. -/
+theorem C18_source_minimal (dst : Bytes) (bits : UInt64) (fuel : Nat) (tape : Array UInt64)
+    (hf : fuelOK fuel bits) (hfin : F64.isFinite bits = true) (h0 : bits &&& 0x7fffffffffffffff ≠ 0) :
+    ∃ txt l st ds dp, runFun goFuns goappendFloat fuel ⟨[("dst", .bytes dst), ("f", .u64 bits)], tape⟩ =
+        .ret st [.bytes (dst ++ txt), .bool false] ∧ st.tape = tape ∧
+      Spec.numberLit txt.toList = some (l, []) ∧
+      (litValue l).1 = ((bits >>> 63) != 0) ∧
+      SameDecimal (litValue l).2.1 (litValue l).2.2 (natOfDigits ds) (dp - ds.length) ∧
+      (∀ d ∈ ds, d < 10) ∧ ds.head? ≠ some 0 ∧ ds.getLast? ≠ some 0 ∧
+      1 ≤ ds.length ∧ ds.length ≤ 17 ∧
+      F64.roundDecimal false (natOfDigits ds) (dp - ds.length) = some (bits &&& 0x7fffffffffffffff) ∧
+      (∀ (m d : Nat) (k : Int), m < ds.length → d < 10 ^ m → d ≠ 0 →
+        F64.roundDecimal false d k ≠ some (bits &&& 0x7fffffffffffffff)) ∧
+      (∀ (ma : Nat) (ea : Int) (X : Nat) (k : Int),
+        F64.decode (bits &&& 0x7fffffffffffffff) = .fin false ma ea → X < 10 ^ ds.length →
+        F64.roundDecimal false X k = some (bits &&& 0x7fffffffffffffff) →
+        (F64Round.decValue false (natOfDigits ds) (dp - ds.length) - value false ma ea).abs ≤
+          (F64Round.decValue false X k - value false ma ea).abs ∧
+        ((F64Round.decValue false X k - value false ma ea).abs =
+            (F64Round.decValue false (natOfDigits ds) (dp - ds.length) - value false ma ea).abs →
+          F64Round.decValue false X k ≠ F64Round.decValue false (natOfDigits ds) (dp - ds.length) →
+          natOfDigits ds % 2 = 0 ∨ natOfDigits ds = 1)) :=
+  SJ.ShortestMinimal.C18_source_minimal dst bits fuel tape hf hfin h0
 
 end SJ.Properties.C18
